@@ -1,24 +1,73 @@
 """What MANIFEST.json claims, per property."""
 
-NOTE = ("Trusted: Coq kernel; the hand-written model's faithfulness (checked by the correspondence runs on the inputs/"
-        "schedules they explore, not proved); extraction (ExtrOcamlBasic) + OCaml driver; Rust harness; SC interleaving "
-        "of atomics; dependency crates modelled from their source, not verified. No axioms.")
+NOTE = ("Trusted: Coq 8.16.1 kernel; the hand-written model's faithfulness (checked by the correspondence runs on the inputs/"
+        "schedules they explore, not proved); extraction (ExtrOcamlBasic only) + OCaml driver; Rust harness; SC interleaving "
+        "of atomics; dependency crates (orx-concurrent-iter, ordered bag, priority queue, SplitVec/FixedVec) modelled from "
+        "their source, not verified. No axioms (Print Assumptions: closed under the global context).")
+
+K3 = ("tied to /repo by K3: ~2400 (quick) generated computations over 99 (source kind x chain shape) programs x 13 terminals "
+      "x num_threads/chunk_size settings run on the real crate and on the extracted model; ")
+
+
+def c(technique, text, ref):
+    return {"technique": technique, "text": text, "design_ref": ref, "note": NOTE}
+
 
 CLAIMS = {
-    "C11": {
-        "technique": "Coq proof (settings arithmetic + runner machine) + differential correspondence",
-        "text": "Theorems: Exact(c) resolves to c (clamped to a known input length) and next_chunk_size hands exactly that value to every later worker for every num_spawned/has_more; tied to /repo by K1 (exhaustive dense grid + boundary + seeded random evaluation of the real Runner::new/do_spawn/next_chunk_size against the extracted model) with the direct oracle 'every handed-out size equals the resolved Exact size'.",
-        "design_ref": "DESIGN.md section 5 C11, section 4.4 K1",
-        "note": NOTE,
-    },
-    "C15": {
-        "technique": "Coq proof of totality of the checked-usize settings arithmetic + differential correspondence",
-        "text": "Theorems: within the stated bounds no checked usize operation of calc_num_threads/calc_chunk_size/do_spawn/next_chunk_size overflows, underflows or divides by zero, the halving loop terminates, resolved settings are >= 1; tied to /repo by K1 including which inputs panic (debug build).",
-        "design_ref": "DESIGN.md section 5 C15, section 4.4 K1",
-        "note": NOTE,
-    },
+    "C01": c("Coq proof (all schedules, all chains) + differential correspondence with the extracted model",
+             "Theorems: for every operation sequence on the eight computation types (any eager sites), every well-formed resolved "
+             "setting and every schedule of the runner machine, the merge-collect and bag-collect kernels return the sequential "
+             "chain's output (partition invariant, key-sorted k-way merge, exactly-once positional writes); " + K3 +
+             "collect_vec/collect/collect_into values compared with the specification value.", "DESIGN.md 5 C01"),
+    "C02": c("Coq proof (all schedules incl. early-exit races) + differential correspondence",
+             "Theorems: for every schedule the min-by-index combination of per-worker first matches is the least matching "
+             "position and its first yielded value, None iff nothing matches; predicates are one more filter stage; " + K3 +
+             "find/first/*_with_index/any/all compared with the specification.", "DESIGN.md 5 C02"),
+    "C03": c("Coq proof (assoc+comm operator, all schedules) + differential correspondence",
+             "Theorem: the per-chunk / per-thread / spawn-order combination tree equals the left fold over the sequential output "
+             "for every schedule when the operator is associative and commutative; " + K3 +
+             "reduce with wrapping add, xor, min, max on pipelines with duplicates.", "DESIGN.md 5 C03"),
+    "C04": c("Coq proof (all schedules) + differential correspondence incl. call multisets",
+             "Theorems: count = length of the sequential output; the call log of map(f).count() is a permutation of the sequential "
+             "log; " + K3 + "count values and for_each argument multisets compared.", "DESIGN.md 5 C04"),
+    "C05": c("Coq proof (call accounting in the closure-composition model, all schedules) + call-log correspondence",
+             "Theorems: every lazy transformation extends the per-element trace by exactly the new stage; construction-time plus "
+             "run-time calls are a permutation of the sequential calls; every position is processed by exactly one worker; " + K3 +
+             "instrumented closures: (stage,arg) multisets vs model and vs the sequential chain; re-entrancy flag in the "
+             "instrumented source iterator. Partial: the ConIterOfIter handle protocol is exercised only free-running.",
+             "DESIGN.md 5 C05"),
+    "C06": c("Coq proof (offset writes / push-after-merge, all schedules) + target sweep correspondence",
+             "Theorems: collect_into = old ++ sequential output for the merge path and the positional-write path, any old contents; "
+             + K3 + "Vec/SplitVec/FixedVec targets x known/unknown-length sources x all kinds.", "DESIGN.md 5 C06"),
+    "C07": c("Coq proof (all schedules) + differential correspondence",
+             "Theorem: collect_x is a permutation of the sequential output for every schedule; " + K3 +
+             "sorted contents compared.", "DESIGN.md 5 C07"),
+    "C08": c("Coq proof (spawner invariant, all schedules) + hook-gauge correspondence",
+             "Theorems: Max(n) resolves to <= n threads; in every reachable state the number of workers spawned is <= max_num_threads; "
+             "is_sequential iff Max(1); " + K3 + "live-worker gauge, spawn counts and per-closure thread-id sets from the verif-hooks "
+             "events; K1 for the thread-count arithmetic. Known finding: reduce operator also runs on the caller.",
+             "DESIGN.md 5 C08"),
+    "C09": c("Coq proof (denotation + exact call order for one-pass pipelines) + sequential-mode correspondence",
+             "Theorems: sequential value = std chain value for every operation sequence; reduce is a left fold with no assumption "
+             "on the operator; for pipelines without eager sites the run-time call sequence is the sequential one; " + K3 +
+             "num_threads(1) runs with non-associative operators and exact per-thread call order.", "DESIGN.md 5 C09"),
+    "C11": c("Coq proof (settings arithmetic) + differential correspondence + hook observation",
+             "Theorems: Exact(c) resolves to c (clamped to a known length) and every later worker is handed exactly that size; "
+             "K1 exhaustive grid on the real Runner functions; K3: chunk sizes handed to workers (WorkerBegin hook).",
+             "DESIGN.md 5 C11"),
+    "C12": c("Coq proof (induction over operation lists) + differential correspondence",
+             "Theorems: params = last set values through all transformations incl. eager sites; usize conversions; is_sequential iff "
+             "Max(1); " + K3 + "params()/is_sequential()/type name compared on every case (setters before and after the chain).",
+             "DESIGN.md 5 C12"),
+    "C15": c("Coq proof of totality of the checked-usize settings arithmetic + differential correspondence",
+             "Theorems: no checked usize operation overflows/underflows/divides by zero within the stated bounds, resolved settings "
+             ">= 1; K1 including which inputs panic; K3: every parallel result equals the specification and no terminal panics over "
+             "the configuration grid.", "DESIGN.md 5 C15"),
+    "C16": c("Coq proof (laziness of 24 transitions, exact eager list) + construction-log correspondence",
+             "Theorems: outside the eight known sites nothing runs during construction; setters never run anything; at the known "
+             "sites the upstream stage is fully evaluated (refutation witness); " + K3 + "construction-time call logs; the eight "
+             "sites are reported as KNOWN-FINDING, any other is a violation.", "DESIGN.md 5 C16"),
 }
 
 _PENDING = "check under construction in this round (Coq model layer not yet built); the property is decidable by the technique, see DESIGN.md section 5"
-NOT_APPLICABLE = {p: _PENDING for p in
-                  ["C01", "C02", "C03", "C04", "C05", "C06", "C07", "C08", "C09", "C10", "C12", "C13", "C14", "C16"]}
+NOT_APPLICABLE = {p: _PENDING for p in ["C10", "C13", "C14"]}
